@@ -481,8 +481,18 @@ class Project:
         v = self.raw_lookup(ns, loc, path)
         return self.denote_value(self.expand(ns, loc, v, ((ns, tuple(path), loc),)))
 
+    def check_count_conflicts(self, ns, path):
+        """One count variable cannot be a range count and a plural count, nor a range count of two types (C08)."""
+        _, _, counts = self.required_args(ns, path)
+        for name, kinds in counts.items():
+            if "plural" in kinds and len(kinds) > 1:
+                raise ExpectError("RangeAndPluralsMix", name)
+            if len(kinds) > 1:
+                raise ExpectError("RangeTypeMissmatch", name)
+
     def denote_key(self, ns, path):
         """Term over the symbolic locale: effective-locale selection (C03) around per-locale text."""
+        self.check_count_conflicts(ns, path)
         groups = {}
         for l in self.locale_order():
             e = self.effective_locale(ns, l, path)
